@@ -453,6 +453,8 @@ class ZooSVGP(gpytorch.models.ApproximateGP):
         vbatch = torch.Size([lat]) if strat in ("lmc", "indep_mt") else torch.Size([])
         # variant 1: other initial inducing locations (they are parameters or buffers and travel in the state_dict)
         z = make_inputs(ds + 11 + 1009 * variant, [], m, d)
+        # the caller's tensor and a copy of it: nothing the model does later may write into the caller's tensor
+        object.__setattr__(self, "_ctor_tensors", (z, z.clone()))
 
         def dist(kind, num, batch=vbatch):
             if kind == "cholesky":
